@@ -495,7 +495,7 @@ def r26(ctx: Ctx) -> RuleReport:
                 if '.triples' in norm(t):
                     muts.append(n)
     good = len(muts) == 1 and isinstance(muts[0], ast.Call) and muts[0].func.attr == 'sort' and \
-        not any(k.arg == 'reverse' for k in muts[0].keywords)
+        not any(k.arg == 'reverse' and try_fold(k.value) != (True, False) for k in muts[0].keywords)
     rep.add('penman.layout:reconfigure: triples are only reordered by list.sort(key=...) (stable)', rc.loc(), 'ok' if good else 'violation',
             '' if good else f'{[norm(m)[:50] for m in muts]}')
     kf = ctx.repo.maybe_func(L, 'reconfigure._key')
